@@ -179,6 +179,25 @@ class Program(object):
                         for x in ast.walk(t_):
                             if isinstance(x, ast.Attribute) and isinstance(x.ctx, ast.Store):
                                 self.mutable_fields.add(x.attr)
+        # names that are ever the subject of an in-place change (x[k] = v, del x[k],
+        # x.update(...) ...): a module-level dict / list / set literal bound to a name
+        # that is not among them is a constant table of the program
+        self.mutated_names = set()
+        MUT = ('update', 'pop', 'popitem', 'setdefault', 'clear', 'append', 'extend',
+               'insert', 'remove', 'add', 'discard', 'sort', 'reverse')
+        def _nm(x):
+            return x.id if isinstance(x, ast.Name) else (
+                x.attr if isinstance(x, ast.Attribute) else None)
+        for m in self.modules.values():
+            for n in ast.walk(m.tree):
+                if isinstance(n, ast.Subscript) and isinstance(n.ctx, (ast.Store, ast.Del)):
+                    self.mutated_names.add(_nm(n.value))
+                elif isinstance(n, ast.Call) and isinstance(n.func, ast.Attribute) and \
+                        n.func.attr in MUT:
+                    self.mutated_names.add(_nm(n.func.value))
+                elif isinstance(n, ast.AugAssign):
+                    self.mutated_names.add(_nm(n.target))
+        self.mutated_names.discard(None)
         for cmd, script in ENTRY_SCRIPTS.items():
             sp = os.path.join(self.repo, script)
             if not os.path.isfile(sp):
